@@ -68,7 +68,8 @@ def required(tier):
           'C09.rca.whitens': 12 if q else 250,
           'C09.lfda.affinity-from-sigma': 25 if q else 600,
           'C09.lfda.metric-from-affinity': 25 if q else 600,
-          'C09.lfda.frame-captured': 25 if q else 600}
+          'C09.lfda.frame-captured': 25 if q else 600,
+          'C09.lfda.order': 10 if q else 250}
 
 
 def run_case(spec, j):
@@ -289,6 +290,22 @@ def _lfda_case(spec, j):
   sc = max(np.abs(Mref).max(), 1e-300)
   link3 = j.close('C09.lfda.metric-from-affinity', M, Mref,
                   1e-6 * sc * max(1.0, 1e-3 / gap), dict(det, gap=gap))
+  # link 4: rows ordered by decreasing eigenvalue (Rayleigh quotients of the
+  # rows of components_ w.r.t. the scatter matrices built above)
+  Sws, Sbs = (Sw + Sw.T) / 2, (Sb + Sb.T) / 2
+  q = np.array([v.dot(Sbs).dot(v) / max(v.dot(Sws).dot(v), 1e-300)
+                for v in L])
+  l0 = max(abs(lam[0]), 1e-300)
+  if emb in ('plain', 'weighted'):
+    seps = np.diff(lam[:kdim + 1 if kdim < d else kdim])
+    if kdim > 1 and np.all(-seps > 1e-4 * l0):
+      j.close('C09.lfda.order', q, lam[:kdim], 1e-5 * l0,
+              dict(det, rayleigh=q, eigenvalues=lam[:kdim]))
+    elif kdim > 1:
+      j.skip('C09.lfda.order', 'near-degenerate-eigenvalues')
+  elif kdim > 1 and d > 1 and (lam[0] - lam[1]) > 1e-4 * l0:
+    j.close('C09.lfda.order', q[0], lam[0], 1e-5 * l0,
+            dict(det, rayleigh=q, eigenvalues=lam[:kdim]))
   if sigma_ok:
     j.ok('C09.lfda.sigma-documented')
   elif link3:
